@@ -263,7 +263,10 @@ def check_c19(tier, seed):
     c3 = dict(consts, Chars="{1, 3, 5, 8}", Tier='"quick"', MaxURIs=1, MaxLen=3)
     m3, states3, _ = run_model("mc/MC_Discover.tla", "DSpec", c3, ["Inv_C19"], 900, want=("uris", "args", "res"))
     models.append(m3)
-    states = states + states3
+    c4 = dict(consts, Chars="{1, 2, 3}", Tier='"quick"', MaxURIs=3, MaxLen=2)
+    m4, states4, _ = run_model("mc/MC_Discover.tla", "DSpec", c4, ["Inv_C19"], 900, want=("uris", "args", "res"))
+    models.append(m4)
+    states = states + states3 + states4
     calls = Calls({"C19"})
     done = [s for s in states if s.get("args")]
     if cex:
@@ -562,6 +565,7 @@ def check_c18(tier, seed):
     base_recs = [{"p": "CHEBI", "u": "http://purl.obolibrary.org/obo/CHEBI_", "ps": ["chebi"],
                   "us": ["https://www.ebi.ac.uk/chebi/searchId.do?chebiId=", "http://identifiers.org/chebi/", "http://sp ace.org/chebi/"], "pat": None},
                  {"p": "GO", "u": "http://purl.obolibrary.org/obo/GO_", "ps": [], "us": [], "pat": None},
+                 {"p": "size", "u": "http://example.org/größe/", "ps": [], "us": ["http://example.org/size/", "http://example.org/大きさ/"], "pat": None},
                  {"p": "OBO", "u": "http://purl.obolibrary.org/obo/", "ps": [], "us": ["http://obo.alt/\"q\"/", "http://obo.example/"], "pat": None}]
     ci0 = calls.conv(base_recs, ":")
     app0 = get_flask_mapping_app(calls.conv_objs[ci0 - 1]).test_client()
@@ -592,7 +596,7 @@ def check_c18(tier, seed):
     alltypes = SUPPORTED + SYNONYMS + UNSUPPORTED
     for k in range(300 if quick else 5000):
         ts = rng.sample(alltypes, rng.randrange(1, 6))
-        parts = [(t, rng.choice([None, None, 1000, 900, 800, 500, 550, 300, 100, 1])) for t in ts]
+        parts = [(t, rng.choice([None, None, 1000, 900, 800, 500, 550, 300, 100, 1, 0])) for t in ts]
         neg_call(parts, rng.randrange(16), served=(k % 10 == 0))
     neg_call([], 0, served=True)
     # --- answers
@@ -650,7 +654,8 @@ def check_c18(tier, seed):
         for st in mstates[: (60 if quick else 1500)]:
             if 3 not in st["u"]:
                 map_calls(mci, "http://h/" + _dconc(st["u"], mm), False)
-    us = ["http://purl.obolibrary.org/obo/CHEBI_1", "http://obo.example/CHEBI_1", "http://obo.example/GO_7", "http://obo.example/x", "https://www.ebi.ac.uk/chebi/searchId.do?chebiId=1", "http://identifiers.org/chebi/24867",
+    us = ["http://example.org/size/42", "http://example.org/größe/7", "http://purl.obolibrary.org/obo/CHEBI_é1", "http://example.org/大きさ/東京",
+          "http://purl.obolibrary.org/obo/CHEBI_1", "http://obo.example/CHEBI_1", "http://obo.example/GO_7", "http://obo.example/x", "https://www.ebi.ac.uk/chebi/searchId.do?chebiId=1", "http://identifiers.org/chebi/24867",
           "http://purl.obolibrary.org/obo/GO_0032571", "http://purl.obolibrary.org/obo/go.owl", "http://example.org/nope/1",
           "http://purl.obolibrary.org/obo/CHEBI_", "http://purl.obolibrary.org/obo/CHEBI", "http://purl.obolibrary.org/obo/x_y"]
     for u in us:
@@ -698,7 +703,7 @@ def check_c18(tier, seed):
     return {"lines": lines, "violations": violations, "coverage": cov, "wall": time.time() - t0, "assumptions": ASSUME + [
         "rdflib's SPARQL engine, result serialisers and _is_valid_uri; Flask.test_client",
         "the FastAPI mapping app cannot be constructed in this sandbox (python-multipart is not installed): only Flask, graph.query and handle_header carry C18" if not fastapi_ok else "FastAPI mapping app constructible",
-        "Accept headers without repeated media types and without q=0"]}
+        "Accept headers without the same media type twice; q=0 is treated as an ordinary (lowest) weight, as the property reads"]}
 
 
 # ---------------------------------------------------------------------------
@@ -1107,6 +1112,8 @@ def check_c16(tier, seed):
             src = 1
         elif labels == "empty":  # the empty string is a legal label too
             df = pd.DataFrame({"": [f"o{k}" for k in range(len(column_values))], "c0": list(column_values)})
+        elif labels == "index":  # a frame whose index is not 0..n-1 (as after filtering or sorting)
+            df.index = [3 * k + 7 for k in reversed(range(len(column_values)))]
         before = df.copy(deep=True)
         fn = getattr(c, "pd_" + kind)
         kw = {"strict": s, "passthrough": p}
@@ -1197,8 +1204,8 @@ def check_c16(tier, seed):
             pd_op(ci, kind, amb, False, True, colvals + ["http://late.example/x1", "http://purl.obolibrary.org/obo/GO_1"], None)
         for k2 in (kind, rng.choice(["standardize_prefix", "standardize_curie", "standardize_uri"])):
             vals = colvals if k2 in ("compress", "expand") else colvals + ["GO", "go", "nope"]
-            lab = rng.choice(["str", "str", "int", "empty"])
-            tgt = {"str": [None, "new"], "int": [None, 0, 2, 5], "empty": [None, "", "new"]}[lab]
+            lab = rng.choice(["str", "index", "int", "empty", "index"])
+            tgt = {"str": [None, "new"], "index": [None, "new"], "int": [None, 0, 2, 5], "empty": [None, "", "new"]}[lab]
             pd_op(ci, k2, amb, rng.random() < 0.3, rng.random() < 0.5, vals, rng.choice(tgt), lab)
     shutil.rmtree(tdir, ignore_errors=True)
     batch = {"strs": I.table(), "convs": convs, "traces": traces}
